@@ -601,5 +601,7 @@ FORMS = build()
 
 ISAS = [
     Isa("S12Z", "S912ZVH128F2CLQ", FORMS, "mot", pcsym="*", slot=16, base=0x10000, offsets=[0, 1, 3], maxaddr=0xFFFFFF,
-        prologue=["\tpadding\toff"], golden=[("t_s12z", {"s912zvh128f2clq": True})]),
+        prologue=["\tpadding\toff"], golden=[("t_s12z", {"s912zvh128f2clq": True})],
+        # 7-byte instruction: the listing continues the code field on a second line the selftest reader does not join
+        golden_ignore=("mov.l #$113355aa,(100,x)",)),
 ]
